@@ -119,8 +119,10 @@ func (b *bytecode) compile(c *Compiler, expr ast.Expr, env *val.Env) {
 
 	case *ast.MemberExpr:
 		b.compile(c, e.Obj, env)
+		// operand is the field name: the value's own layout decides the slot,
+		// structurally equal object types may order their fields differently
 		b.emitOP(OP_OBJ_LOAD)
-		b.emitMediumInt(e.Index)
+		b.emitConst(e.Field.Name)
 
 	default:
 		util.Unreachable()
